@@ -323,6 +323,9 @@ func (v *VM) exec() {
 			v.stack = v.stack[:len(v.stack)-int(i.A)+1]
 			if i.B == 1 {
 				tmp := vs[len(vs)-1]
+				if tmp.t == TypeString { // append(b, s...): the string's bytes
+					tmp = tmp.convert(TypeSlice)
+				}
 				vs = append(vs[:len(vs)-1], tmp.data()...)
 			}
 			if s.value != nil {
